@@ -209,6 +209,15 @@ def parseXmlElems : Nat → List String → Option (List (Str × List (Str × St
 def supprListStr (l : List Suppr) : String :=
   s!"{l.length}" ++ String.join (l.map fun s => " " ++ supprStr s)
 
+def readPrinted : Nat → List String → Option (List Suppr)
+  | 0, [] => some []
+  | k + 1, id :: fn :: ln :: sym :: r =>
+    match fromHex id, fromHex fn, parseInt ln, fromHex sym, readPrinted k r with
+    | some id, some fn, some ln, some sym, some l =>
+      some ({ errorId := id, fileName := fn, lineNumber := ln, symbolName := sym } :: l)
+    | _, _, _, _, _ => none
+  | _, _ => none
+
 def step (line : String) : String :=
   let (fs, tb) := splitTables (fields line)
   let env := envOf tb
@@ -293,6 +302,28 @@ def step (line : String) : String :=
           s!"{l.length}" ++ String.join (l.map fun s => s!" {supprStr s} {s.hash}")
       | _ => "bad-op"
     | none => "bad-op"
+  | "pfp" :: n :: rest | "pxp" :: n :: rest =>
+    -- the SPEC side of parseFile_print / parseXml_print: add the suppressions one after the other
+    let isXml := (fields line).head? == some "pxp"
+    match n.toNat? with
+    | some n =>
+      match readPrinted n rest with
+      | some ss =>
+        if isXml then
+          let hyp := ss.all fun s => decide (intMin ≤ s.lineNumber) && decide (s.lineNumber ≤ intMax)
+          let (e, l) := addSeqX (ss.map (xmlFieldsOf env)) []
+          let (e2, l2) := parseXml env (ss.map fun s => ("suppress".toList, xmlOf s)) []
+          (match e with | none => "ok" | some e => xmlErrStr e) ++ " " ++ supprListStr l ++
+            s!" | hyp={boolStr hyp} same={boolStr (decide (l = l2) && decide (e = e2))}"
+        else
+          let hyp := ss.all fun s => printable env s && !skipLine (Cppcheck.SuppressParse.toString s) &&
+            (Cppcheck.SuppressParse.toString s).all (fun c => c != '\n' && c != '\r')
+          let (e, l) := addSeq (ss.map printedFields) []
+          let (e2, l2) := parseFile env [] (fileOf ss)
+          (match e with | none => "ok" | some e => lineErrStr e) ++ " " ++ supprListStr l ++
+            s!" | hyp={boolStr hyp} same={boolStr (decide (l = l2) && decide (e = e2))}"
+      | none => "bad-op"
+    | none => "bad-op"
   | ["si", s] =>
     match fromHex s with
     | some s => match strToInt s with
@@ -323,7 +354,11 @@ def step (line : String) : String :=
                   let uns := ms.map fun m => boolStr (!(nomsg.any fun s => Spec.active cfg.useGlobal m s && Spec.matchesB env s m))
                   let exact := nomsg.all fun s => globExact s.errorId && globExact s.symbolName
                   let later := ms.map fun m => boolStr (nomsg.any fun s => Spec.active true m s && Spec.matchesB env s m)
-                  s!"A {if (a1 ++ a2).isEmpty then "_" else ",".intercalate (a1 ++ a2)} O {if outs.isEmpty then "_" else ",".intercalate outs} X {st.exitCode} N {flagsStr st.nomsg} M {flagsStr st.nofail} | unsup={if uns.isEmpty then "_" else "".intercalate uns} later={if later.isEmpty then "_" else "".intercalate later} exact={boolStr exact}"
+                  -- second gate of a parallel run over what this logger forwarded
+                  let ex := st.out.foldl (fun (acc : String × EState) o =>
+                      let r := hasToLog env cfg acc.2 o
+                      (acc.1 ++ boolStr r.1, r.2)) ("", ({ nomsg := st.nomsg } : EState))
+                  s!"A {if (a1 ++ a2).isEmpty then "_" else ",".intercalate (a1 ++ a2)} O {if outs.isEmpty then "_" else ",".intercalate outs} X {st.exitCode} N {flagsStr st.nomsg} M {flagsStr st.nofail} E {if ex.1.isEmpty then "_" else ex.1} N2 {flagsStr ex.2.nomsg} | unsup={if uns.isEmpty then "_" else "".intercalate uns} later={if later.isEmpty then "_" else "".intercalate later} exact={boolStr exact}"
               | _ => "bad-op"
             | none => "bad-op"
           | _ => "bad-op"
